@@ -25,11 +25,11 @@ import textwrap
 from . import common
 
 OUT = common.LEAN / "YadismModel" / "Generated" / "Effects.lean"
-SRC_ROOT = "/repo/src/"
+SRC_ROOT = str(pathlib.Path(importlib.import_module("yadism").__file__).resolve().parent.parent) + "/"  # /repo/src/ (a scratch worktree when tried on a seeded change)
 
 MUTATORS = {"pop", "update", "setdefault", "clear", "popitem", "append", "extend", "insert", "remove", "sort", "reverse", "add", "discard", "__setitem__", "__delitem__", "resize", "fill", "put", "itemset", "setflags"}
 READERS = {"get", "items", "keys", "values", "copy", "index", "count", "format", "join", "split", "lower", "upper", "startswith", "endswith", "info", "debug", "warning", "tolist", "strip"}
-PURE_BUILTINS = {"isinstance", "str", "len", "enumerate", "range", "float", "int", "abs", "tuple", "sorted", "min", "max", "sum", "zip", "bool", "repr", "type", "print", "ValueError", "KeyError", "NotImplementedError", "TypeError", "any", "all", "round", "iter", "next", "hasattr", "getattr", "id"}
+PURE_BUILTINS = {"isinstance", "str", "len", "enumerate", "range", "float", "int", "abs", "tuple", "sorted", "min", "max", "sum", "zip", "bool", "repr", "type", "print", "ValueError", "KeyError", "NotImplementedError", "TypeError", "any", "all", "round", "iter", "next", "hasattr", "getattr", "id", "filter", "map", "reversed", "frozenset", "super", "object", "AttributeError", "RuntimeError", "ZeroDivisionError"}
 FRESH_BUILTINS = {"dict", "list", "set"}
 ROOTS = [
     ("update", "yadism.input.compatibility", "update"),
@@ -37,6 +37,17 @@ ROOTS = [
     ("runnerInit", "yadism.runner", "Runner.__init__"),
     ("sfLoad", "yadism.sf", "StructureFunction.load"),
     ("xsLoad", "yadism.xs", "CrossSection.load"),
+    # the constructors the kinematics dicts of the observables card are handed to
+    ("esfInit", "yadism.esf.esf", "EvaluatedStructureFunction.__init__"),
+    ("exsInit", "yadism.esf.exs", "EvaluatedCrossSection.__init__"),
+    ("tmcInit", "yadism.esf.tmc", "EvaluatedStructureFunctionTMC.__init__"),
+]
+
+
+# an object's life: constructor, then its methods in any order, any number of times
+LIFECYCLES = [
+    ("sf", "yadism.sf", "StructureFunction", ["load", "get_esf", "drop_cache", "get_result"]),
+    ("xs", "yadism.xs", "CrossSection", ["load", "get_esf", "get_result"]),
 ]
 
 
@@ -102,7 +113,7 @@ class Walker:
     def expr(self, node, mod, ren, branch, depth):
         """visit every call inside an expression"""
         for sub in ast.walk(node):
-            if isinstance(sub, (ast.Lambda, ast.NamedExpr, ast.Await, ast.Yield, ast.YieldFrom)):
+            if isinstance(sub, (ast.NamedExpr, ast.Await, ast.Yield, ast.YieldFrom)):
                 raise Untranslatable(type(sub).__name__)
             if isinstance(sub, ast.Call):
                 self.call(sub, mod, ren, branch, depth)
@@ -138,6 +149,11 @@ class Walker:
                 return
             f_obj = target
         else:
+            if dotted(f) is None:
+                # computed call target (a table of classes, a returned function): not followed
+                roots = sorted({self.name(r, ren) for r in (root_of(a)[0] for a in arg_nodes) if r})
+                self.escapes.append((ast.unparse(f), roots))
+                return
             f_obj = resolve(mod, f)
         fname = ast.unparse(f)
         if f_obj is None and (dotted(f) or "").split(".")[0] in ("self", "cls"):
@@ -201,7 +217,24 @@ class Walker:
             src = fresh_source(value, mod, lambda x: self.name(x, ren)) if value is not None else None
             if src is not None and not branch:
                 self.emit("copy", nm, src)
+            elif src is not None and "." not in d:
+                # a new object bound inside a branch / loop body: for the rest of *this block* (whose
+                # statements run only after this one did) the name refers to it; emitted under a unique
+                # name, so that the allocation may be taken as unconditional without changing what any
+                # other name refers to.  Outside the block the name is unknown again (alias at block end).
+                self.uid = getattr(self, "uid", 0) + 1
+                u = f"{nm}@{self.uid}"
+                self.emit("copy", u, src)
+                ren[d] = u
+                ren.overrides.append(nm)
             else:
+                if d in ren and "@" in ren[d]:
+                    # rebinding a block-local fresh name to something else: back to the outer name
+                    outer = ren[d].split("@")[0]
+                    del ren[d]
+                    if outer != d:
+                        ren[d] = outer
+                    nm = outer
                 self.emit("alias", nm)
             return
         if isinstance(tgt, ast.Subscript):
@@ -215,6 +248,13 @@ class Walker:
                 self.emit("writeNested", self.name(r, ren))
             return
         raise Untranslatable("target " + ast.unparse(tgt))
+
+    def block(self, stmts, mod, ren, depth):
+        """a nested statement list (branch, loop body, handler)"""
+        sub = ren.fork()
+        self.body(stmts, mod, sub, True, depth)
+        for outer in sub.overrides:
+            self.emit("alias", outer)
 
     def body(self, stmts, mod, ren, branch, depth):
         for st in stmts:
@@ -243,16 +283,16 @@ class Walker:
                     self.bind(t, None, mod, ren, branch)
             elif isinstance(st, ast.If):
                 self.expr(st.test, mod, ren, branch, depth)
-                self.body(st.body, mod, ren, True, depth)
-                self.body(st.orelse, mod, ren, True, depth)
+                self.block(st.body, mod, ren, depth)
+                self.block(st.orelse, mod, ren, depth)
             elif isinstance(st, (ast.For, ast.While)):
                 if isinstance(st, ast.For):
                     self.expr(st.iter, mod, ren, branch, depth)
                     self.bind(st.target, None, mod, ren, True)
                 else:
                     self.expr(st.test, mod, ren, branch, depth)
-                self.body(st.body, mod, ren, True, depth)
-                self.body(st.orelse, mod, ren, True, depth)
+                self.block(st.body, mod, ren, depth)
+                self.block(st.orelse, mod, ren, depth)
             elif isinstance(st, ast.Return):
                 if st.value is not None:
                     self.expr(st.value, mod, ren, branch, depth)
@@ -262,11 +302,11 @@ class Walker:
             elif isinstance(st, ast.Pass):
                 pass
             elif isinstance(st, ast.Try):
-                self.body(st.body, mod, ren, True, depth)
+                self.block(st.body, mod, ren, depth)
                 for h in st.handlers:
-                    self.body(h.body, mod, ren, True, depth)
-                self.body(st.orelse, mod, ren, True, depth)
-                self.body(st.finalbody, mod, ren, True, depth)
+                    self.block(h.body, mod, ren, depth)
+                self.block(st.orelse, mod, ren, depth)
+                self.block(st.finalbody, mod, ren, depth)
             elif isinstance(st, ast.With):
                 for it in st.items:
                     self.expr(it.context_expr, mod, ren, branch, depth)
@@ -291,6 +331,7 @@ class LocalRen(dict):
     def __init__(self, m, tag):
         super().__init__(m)
         self.tag = tag
+        self.overrides = []
 
     def get(self, k, default=None):
         if k in self:
@@ -301,6 +342,13 @@ class LocalRen(dict):
 
     def local(self, k):
         return self.get(k, k)
+
+    def fork(self):
+        """the renaming inside a nested block: names freshly bound there get a unique emitted name for the
+        rest of the block (`overrides`), invisible outside"""
+        f = LocalRen(dict(self), self.tag)
+        f.overrides = []
+        return f
 
 
 def fresh_source(value, mod, name):
@@ -317,6 +365,27 @@ def fresh_source(value, mod, name):
         if obj in (dict, list, set) or (inspect.isclass(obj) and not issubclass(obj, BaseException)):
             return "<new>"
     return None
+
+
+def translate_one(modname, qual):
+    mod = importlib.import_module(modname)
+    obj = mod
+    for part in qual.split("."):
+        obj = getattr(obj, part)
+    fn = getattr(obj, "__func__", obj)
+    tree = ast.parse(textwrap.dedent(inspect.getsource(fn))).body[0]
+    params = [a.arg for a in tree.args.args if a.arg not in ("self", "cls")]
+    w = Walker()
+    ren = LocalRen({p: p for p in params}, None)
+    w.body(tree.body, mod, ren, False, 0)
+    return dict(params=params, stmts=w.stmts, escapes=w.escapes, source=f"{modname}.{qual}")
+
+
+def translate_lifecycles():
+    out = {}
+    for nm, modname, cls, methods in LIFECYCLES:
+        out[nm] = dict(init=translate_one(modname, f"{cls}.__init__"), methods={m: translate_one(modname, f"{cls}.{m}") for m in methods}, source=f"{modname}.{cls}")
+    return out
 
 
 def translate():
@@ -340,7 +409,7 @@ def lean_str(s):
     return '"' + s.replace("\\", "\\\\").replace('"', '\\"') + '"'
 
 
-def render(tr):
+def render(tr, life=None):
     L = ["/- GENERATED by harness/translate_effects.py from /repo's working tree: do not edit. -/", "import YadismModel.Model.Heap", "", "namespace Yadism.Generated.Effects", "", "open Yadism.Heap", ""]
     for nm, d in tr.items():
         L.append(f"/-- `{d['source']}`({', '.join(d['params'])}), callees inlined, every branch kept -/")
@@ -358,13 +427,32 @@ def render(tr):
         L.append(",\n".join("  (" + lean_str(f) + ", [" + ", ".join(lean_str(r) for r in rs) + "])" for f, rs in d["escapes"]))
         L.append("]")
         L.append("")
+    for nm, d in (life or {}).items():
+        L.append(f"/-- `{d['source']}`: the constructor -/")
+        L.append(f"def {nm}Init : List Stmt := [")
+        L.append(",\n".join("  ." + s_[0] + " " + " ".join(lean_str(a) for a in s_[1:]) for s_ in d["init"]["stmts"]))
+        L.append("]")
+        L.append("")
+        L.append(f"/-- `{d['source']}`: the methods " + ", ".join(d["methods"]) + " -/")
+        L.append(f"def {nm}Methods : List (List Stmt) := [")
+        L.append(",\n".join("  [" + ", ".join("." + s_[0] + " " + " ".join(lean_str(a) for a in s_[1:]) for s_ in m["stmts"]) + "]" for m in d["methods"].values()))
+        L.append("]")
+        L.append("")
+        esc = list(d["init"]["escapes"]) + [e for m in d["methods"].values() for e in m["escapes"]]
+        L.append(f"def {nm}LifeEscapes : List (String × List String) := [")
+        L.append(",\n".join("  (" + lean_str(f) + ", [" + ", ".join(lean_str(r) for r in rs) + "])" for f, rs in esc))
+        L.append("]")
+        L.append("")
     L.append("end Yadism.Generated.Effects")
     return "\n".join(L) + "\n"
 
 
 def regenerate():
     tr = translate()
-    txt = render(tr)
+    life = translate_lifecycles()
+    tr["_lifecycles"] = {k: dict(stmts=[s_ for m in [v["init"]] + list(v["methods"].values()) for s_ in m["stmts"]], escapes=[e for m in [v["init"]] + list(v["methods"].values()) for e in m["escapes"]], source=v["source"], params=[]) for k, v in life.items()}
+    txt = render({k: v for k, v in tr.items() if k != "_lifecycles"}, life)
+    tr.update({f"{k}Life": v for k, v in tr.pop("_lifecycles").items()})
     changed = not OUT.exists() or OUT.read_text() != txt
     if changed:
         OUT.write_text(txt)
